@@ -20,6 +20,27 @@ From Cicada Require Import Base.Chars Base.Peg Gen.LocustGrammar.
 From Coq Require Import ZArith.
 Local Open Scope N_scope.
 
+(** parser_line::trim_cmd (since d2f4d24 run_exp and run_exp_test_br trim the pair text with it):
+    trim, but a white-space character escaped by an odd number of trailing backslashes is kept.
+    On texts whose trimmed form does not end in a backslash it is [trim]
+    (Proofs/ScriptProofs.v, trim_cmd_is_trim); the pair tree [ttree] carries trim(as_str). *)
+Fixpoint count_bs (r : str) : nat :=
+  match r with
+  | c :: r' => if c =? c_bs then S (count_bs r') else O
+  | [] => O
+  end.
+Definition trim_cmd (s : str) : str :=
+  let t := trim_start s in
+  let trimmed := trim_end t in
+  if Nat.ltb (length trimmed) (length t) then
+    if Nat.odd (count_bs (rev trimmed)) then
+      match skipn (length trimmed) t with
+      | c :: _ => trimmed ++ [c]
+      | [] => trimmed
+      end
+    else trimmed
+  else trimmed.
+
 Inductive outcome (W : Type) :=
 | Done (w : W) (crs : list Z) (cont brk : bool)
 | Panic
